@@ -28,3 +28,8 @@ package bs_domain
 //@ requires b != nil
 //@ ensures result <==> HasSuper(*b, len((*b).FunctionCalls))
 //@ loop 1 invariant hasCallSuperMethod <==> HasSuper(*b, #i)
+
+// findings of one kind: larger first, on the two findings compared
+//@ closure SortSmellByType$1
+//@ requires 0 <= i && i < len(*smells) && 0 <= j && j < len(*smells)
+//@ ensures result == ((*smells)[i].Size > (*smells)[j].Size)
